@@ -231,6 +231,18 @@ class EpisodeSim:
                 acts.append(a)
             if acts is None:
                 break
+            if run.plan.get("lookahead") and run.chooser.pick(2, lambda: run.chooser.rng.randrange(2)) == 1:
+                # discarded look-ahead from the same state (TorchRL mode only)
+                alt = []
+                for pos in range(len(src)):
+                    o = D.admitted(mask[pos])
+                    alt.append(o[run.chooser.pick(len(o), lambda o=o: run.chooser.rng.randrange(len(o)))])
+                with run.guard(name, "discarded look-ahead step from the same state", promise=False):
+                    td.set("action", torch.tensor(alt))
+                    env.step(td)
+                run.fault("lookahead_discarded")
+                run.probe("lookahead_discarded")
+                run.nontrivial = True
             for pos, a in enumerate(acts):
                 hist[pos].append(a)
             tail.append(acts)
@@ -409,8 +421,16 @@ def _plan(run_seed, tier, env_names, perturb_kinds, p_perturb=0.5):
     # (not SVRP: every depot visit of a finished row uses up a technician; a lock-step batch never pads a row
     # beyond the number of technicians, an overrun does and the environment indexes past the last one)
     overrun = rc.choice([0, 0, 0, 1, 2, 3]) if (name in E.ROUTING and name != "svrp") else 0
+    # TorchRL stepping (`_torchrl_mode=True`, documented): step() works on a copy and leaves the state it was given
+    # untouched, so a search may try an action from a state, discard the result and go on from the same state.
+    # Scheduled for the environments that accumulate their objective inside the state.
+    lookahead = False
+    if name in ("mdcpdp", "ffsp") and rc.random() < 0.3:
+        cfg["kw"]["_torchrl_mode"] = True
+        lookahead = True
+        overrun = 0
     return {"cfg": cfg, "env_cfg": env_cfg, "instances": [E.enc_row(r) for r in rows], "strategies": strategies,
-            "perturbs": perturbs, "source": source, "overrun": overrun}
+            "perturbs": perturbs, "source": source, "overrun": overrun, "lookahead": lookahead}
 
 
 def _shrink(plan):
